@@ -121,7 +121,8 @@ Proof. vm_compute. split; reflexivity. Qed.
    exhausted (each continuing iteration strictly enlarges the substructure of some centre, none shrinks).
    Stated on the integer dictionary; `0 <= m_unit2 m` says the squared length unit is not negative.
    The general form (any dictionary in which the neighbour test is monotone in the level) is
-   E3FPIterTerm.run_terminates_gen; the fuel 400 of the executable runs covers n <= 20 (fuel_400_suffices). *)
+   E3FPIterTerm.run_terminates_gen (reals: E3FPIterReal.run_terminates_RD); the fuel Z.to_nat 20000 of the executable runs
+   covers n <= 141 (fuel_exec_suffices).  The positive form (run = Ok) is C02.run_succeeds. *)
 Theorem minus_one_terminates : forall C fuel o m,
   o_level o = -1 -> 0 <= m_unit2 ZD m ->
   (length (retained ZD o m) * length (retained ZD o m) - length (retained ZD o m) < fuel)%nat ->
